@@ -1943,9 +1943,11 @@ class FileBuilder:
         for dir_ in self._old_cache.created_dirs():
             dirs_to_remove.discard(os.path.normcase(dir_))
 
-        for filename in self._new_cache.created_files():
-            if not self._old_cache.created_file(filename):
-                FileBuilder._try_to_remove_file(filename)
+        # Remove every file we (re)built, as opposed to reused. This includes
+        # output files from the previous build that we rebuilt; if they had any
+        # old contents, restore_all() brings them back below.
+        for filename in self._new_cache.rebuilt_files():
+            FileBuilder._try_to_remove_file(filename)
         FileBuilder._remove_empty_dirs(list(dirs_to_remove))
 
         FileBuilder._create_dirs(self._old_cache.created_dirs())
